@@ -552,19 +552,27 @@ pub fn drive(cfg: &Cfg, meta: &PropMeta, scenarios: Vec<Scenario<'_>>, post: Opt
     }
     let runs = cfg.runs.unwrap_or(if cfg.tier == "thorough" { meta.thorough_runs } else { meta.quick_runs });
     if let Some(n) = cfg.hashes {
+        // determinism self-test, second process: hash of the first n runs of this shard
+        let (shard_i, shard_k) = cfg.shard;
         let mut acc = 0xcbf2_9ce4_8422_2325u64;
-        for r in 0..n.min(runs) {
+        let mut done = 0;
+        let mut r = 0;
+        while r < runs && done < n {
             let si = scenario_for(&scenarios, r);
-            let sc = &scenarios[si];
-            let seed = run_seed(cfg.seed, sc.name, r);
-            let bytes = bytes_for(seed, EFFECTIVE_BYTES);
-            let o = run_guarded(sc, &RunIn { run: r, run_seed: seed, bytes: &bytes, verbose: false, deep: false });
-            if let Some(e) = o.harness_error {
-                panic!("HARNESS: {e}");
+            if si as u64 % shard_k == shard_i {
+                let sc = &scenarios[si];
+                let seed = run_seed(cfg.seed, sc.name, r);
+                let bytes = bytes_for(seed, EFFECTIVE_BYTES);
+                let o = run_guarded(sc, &RunIn { run: r, run_seed: seed, bytes: &bytes, verbose: false, deep: false });
+                if let Some(e) = o.harness_error {
+                    panic!("HARNESS: {e}");
+                }
+                acc = (acc ^ r.wrapping_mul(31) ^ o.log_hash).wrapping_mul(0x0000_0100_0000_01B3);
+                done += 1;
             }
-            acc = (acc ^ r.wrapping_mul(31) ^ o.log_hash).wrapping_mul(0x0000_0100_0000_01B3);
+            r += 1;
         }
-        println!("HASH {acc:016x}");
+        println!("HASH {acc:016x} {done}");
         return;
     }
     let t0 = Instant::now();
@@ -579,6 +587,9 @@ pub fn drive(cfg: &Cfg, meta: &PropMeta, scenarios: Vec<Scenario<'_>>, post: Opt
     let mut viols: BTreeMap<String, (u64, usize, String)> = BTreeMap::new();
     let mut selftest_runs = 0u64;
     let selftest_n = if cfg.tier == "thorough" { 400 } else { 100 };
+    // hash over the first runs of this shard, compared by the wrapper with a second process
+    let hash_n: u64 = std::env::var("VERIF_E5_HASHN").ok().and_then(|s| s.parse().ok()).unwrap_or(0);
+    let (mut hash_acc, mut hash_done) = (0xcbf2_9ce4_8422_2325u64, 0u64);
     // runs are assigned to shard processes by *scenario* (si % k), so that a shard only has to
     // build (compile/load) the flows of its own scenarios
     let mut r = std::env::var("VERIF_E5_START").ok().and_then(|s| s.parse().ok()).unwrap_or(0u64);
@@ -615,6 +626,10 @@ pub fn drive(cfg: &Cfg, meta: &PropMeta, scenarios: Vec<Scenario<'_>>, post: Opt
             if o2.log_hash != o.log_hash {
                 panic!("HARNESS: determinism self-test failed: run {r} scenario {} gave two different event logs from the same bytes", sc.name);
             }
+        }
+        if hash_done < hash_n {
+            hash_acc = (hash_acc ^ r.wrapping_mul(31) ^ o.log_hash).wrapping_mul(0x0000_0100_0000_01B3);
+            hash_done += 1;
         }
         evaluations += 1;
         *per_scenario.entry(sc.name).or_default() += 1;
@@ -709,6 +724,7 @@ pub fn drive(cfg: &Cfg, meta: &PropMeta, scenarios: Vec<Scenario<'_>>, post: Opt
         "violations": viol_json, "samples": samples,
         "batch_wall_s": batch_wall, "wall_s": t0.elapsed().as_secs_f64(),
         "selftest_runs": selftest_runs,
+        "selftest_hash": format!("{hash_acc:016x} {hash_done}"),
         "rule": meta.rule, "time_unit": meta.time_unit, "real": meta.real, "stubs": meta.stubs,
         "assumptions": meta.assumptions, "required_probes": meta.required_probes,
         "repo_head": repo_head(),
